@@ -59,6 +59,8 @@ func Main(args []string) int {
 			return checkC10prom()
 		case "C05conc":
 			return checkC05conc()
+		case "C09conc":
+			return checkC09conc()
 		}
 	case "replay":
 		if len(args) < 2 {
@@ -71,7 +73,7 @@ func Main(args []string) int {
 		}
 		return racePass(args[1])
 	}
-	fmt.Fprintln(os.Stderr, "usage: ed check C15|C10conc|C05mon|C18atom|C03conc|C13conc|C14conc|C14ctl|C01conc|C06conc|C12conc|C17conc|C16conc|C04conc|C02conc|C10prom|C05conc | ed replay <file> | ed racepass <id> | ed worker")
+	fmt.Fprintln(os.Stderr, "usage: ed check C15|C10conc|C05mon|C18atom|C03conc|C13conc|C14conc|C14ctl|C01conc|C06conc|C12conc|C17conc|C16conc|C04conc|C02conc|C10prom|C05conc|C09conc | ed replay <file> | ed racepass <id> | ed worker")
 	return 2
 }
 
@@ -859,6 +861,15 @@ func checkSimple(prop, harness, evName string) int {
 		if tier == "thorough" {
 			levels = append(levels, Bounds{3, 0, 3}, Bounds{4, 0, 4})
 		}
+	case "C09conc":
+		for _, cf := range c09Configs(tier) {
+			cf := cf
+			jobs = append(jobs, Job{Harness: harness, C09: &cf})
+		}
+		levels = []Bounds{{0, 0, 0}, {1, 0, 1}, {2, 0, 2}, {3, 0, 3}}
+		if tier == "thorough" {
+			levels = append(levels, Bounds{4, 0, 4}, Bounds{5, 0, 5})
+		}
 	case "C05conc":
 		for _, cf := range c05ConcConfigs(tier) {
 			cf := cf
@@ -1043,6 +1054,11 @@ func simpleAssumptions(h string) []string {
 			"ONE real on-disk replica.Server per execution (3 blocks; chain a1 (automatic, base) < a2 (automatic) < u3 (user) < a4 (automatic, latest) < head, every block rewritten along the way), package replica under the scheduler: Server.RWMutex, Replica.RWMutex (writer preference modelled), rmLock, revisionLock are scheduling points; file-system calls, FIEMAP and the coalesce (sparse.FoldFile, as the sfold child does it) run atomically between two points; reclamation off, the hole puncher's drain branch is a managed stub thread",
 			"threads call what the RPC server (WriteAt aligned/unaligned, ReadAt aligned/unaligned) and the REST server / cleaner call (Snapshot, prepare+coalesce+RemoveDiffDisk of a2 as three calls, Revert to u3, Reload, reload-without-preload + UpdateLUNMap, Resize, SetReplicaMode, SetRevisionCounter, Close)",
 			"reference = every sequential merge of the threads' call sequences, each call run to completion on a fresh replica; outcome = per-call results (read data as run-length byte values) + state, mode, size, revision counter, chain, live image and the allocated contents of every chain file",
+		}
+	case "C09conc":
+		return []string{
+			"a real controller.Controller (package controller under the scheduler) with no replica yet, RF 3, three model nodes with revision counters 5, 10, 20; the backend factory records every start signal (and fails it where the configuration says so); registration threads run concurrently",
+			"after quiescence every replica that was told to start calls Controller.Start, lowest revision counter first; outcome = registration results, the start signals in order, which start was accepted, final membership; reference = every sequential merge of the same registrations; additional oracle: the accepted start comes from the replica with the highest revision counter among those told to start",
 		}
 	case "C14ctl":
 		return []string{
